@@ -173,6 +173,31 @@ def lifetime_rules(chk, F, an, tag):
                    "in %s the factor multiplied with a level's free-leaf count depends, within the same loop iteration, on that level's own size "
                    "(it must be the product of the lower levels' sizes only): the lifetime is wrong whenever the levels have different heights" % lt.path,
                    where=lt.loc(b))
+    # every level contributes on every iteration: the operations that update loop-carried state (recording the level's
+    # size for the levels above it, adding the level's term to the result) sit on every path from the loop header back
+    # to it - a `continue` / early branch around one of them drops a radix factor or a term for particular key states
+    inner_blocks = set()
+    for h2, b2 in loops:
+        if b2 < body:
+            inner_blocks |= set(b2)
+    latches = [u for u in body if header in lt.succ[u]]
+    updates = []
+    for b in sorted(body):
+        if b in inner_blocks or lt.blocks[b]["cleanup"]:
+            continue
+        t = lt.blocks[b]["term"]
+        last = (core.callee_path(t) or "").split("::")[-1] if t["k"] == "call" else None
+        if last in ("push", "try_push", "saturating_add", "checked_add", "wrapping_add") or last in MUL_CALLS:
+            updates.append((b, last))
+        elif t["k"] == "assert" and t["msg"]["kind"] == "Overflow" and t["msg"].get("op") in ("Add", "Mul"):
+            updates.append((b, t["msg"]["op"]))
+    chk.count("lifetime_state_updates", len(updates))
+    for n_u, (b, what) in enumerate(updates):
+        skipped = [u for u in latches if not lt.dominates(b, u)]
+        chk.ob("S4.every-level-contributes", "%s@update%d:%s%s" % (lt.key, n_u, what, tag), not skipped,
+               "in %s the level loop can reach its next iteration without executing the `%s` that updates loop-carried state "
+               "(a level's size or term is skipped for some key states: the levels above lose a radix factor or the sum loses a term)" % (lt.path, what),
+               where=lt.loc(b))
     chk.ob("S4.free-leaves-multiplied", lt.key + tag, checked >= 1, "no multiplication of a free-leaf count found in the level loop of %s" % lt.path, where=lt.loc())
     # free = size - used of the same item
     subs = []
